@@ -4,6 +4,7 @@
 //! Output: cases.txt (commands for the model driver), impl.txt (implementation observations),
 //! oracle.txt (verdict of the property's own oracle on the implementation), dist.json.
 mod encutil;
+mod minienc;
 mod reflib;
 mod util;
 mod areas {
